@@ -48,6 +48,7 @@ type sim struct {
 	tried        map[string]string // (receiver,item) -> receiver state stamp at last delivery
 	claimed      map[string]string // (receiver incarnation, holder>receiver, h/r/type) -> block id of the majority claim made
 	armed        map[int]simcore.Op
+	earlyDone    bool
 	targetH      int64
 	idleSteps    int
 	idleNext     int
@@ -205,6 +206,7 @@ func baseConfig(rng *simcore.RNG, env *simcore.Env) simcore.Op {
 	c["crash"] = (crashy && rng.Bool(0.9)) || (!crashy && rng.Bool(0.25)) || (prop == "C03" && rng.Bool(0.35))
 	c["crash_rate"] = []int{1, 2, 4}[rng.Intn(3)]
 	c["wal_garbage"] = rng.Bool(0.4)
+	c["early_crash"] = rng.Bool(0.25)
 	// operators leave statesync.enable = true in the config of a node that has long had state:
 	// it must be ignored there (restarts only, see node.go)
 	c["stale_statesync"] = rng.Bool(0.3)
@@ -818,6 +820,13 @@ func (s *sim) Next(rng *simcore.RNG) simcore.Op {
 			return simcore.Op{"a": "gst"}
 		}
 		return nil
+	}
+	if s.cfg.Bool("crash") && s.cfg.Bool("early_crash") && !s.earlyDone && s.wrng == nil && len(s.armed) == 0 && len(s.alive()) == len(s.nodes) {
+		// a crash inside a node's very first persistent writes (the WAL's initial marker, the
+		// first sign-state write): a state that later restarts build on
+		s.earlyDone = true
+		n := s.nodes[rng.Intn(len(s.nodes))]
+		return simcore.Op{"a": "crash", "node": n.idx, "after": rng.Range(1, 4), "db_keep": rng.Intn(1001), "wal_keep": rng.Intn(1001)}
 	}
 	dirActive := false
 	if s.dir != nil && s.dir.phase != 9 {
